@@ -359,7 +359,7 @@ func (fr *Frame) callWithSpec(callee *ssa.Function, spec *FuncSpec, args []Val, 
 		if !spec.Extern && !fx.eng.useClause(c) {
 			continue
 		}
-		t := post.eval(c.E).asBool()
+		t := fx.hyp(func() T { return post.eval(c.E).asBool() })
 		fx.assume(st.guard, t)
 	}
 	if callee == nil {
@@ -454,6 +454,18 @@ func (fr *Frame) havocLocation(env *Env, loc string, st *State, who string) {
 	}
 	switch x := e.(type) {
 	case *ECall:
+		if x.Fn == "backing" {
+			cv := env.eval(x.Args[0])
+			if cv.k != cvVal || cv.v.sh.kind != KSlice {
+				unsupp("modifies %s: not a slice", loc)
+			}
+			ash := &Shape{kind: KArr, elem: cv.v.sh.elem, n: -1, key: "[?]" + cv.v.sh.elem.key}
+			for c := 0; c < ash.ncomp(); c++ {
+				na := fr.fx.decls.Fresh("backing", ash.sorts()[c])
+				fr.fx.storeObjComps(st, ash, cv.v.slRef(), c, []T{na})
+			}
+			return
+		}
 		if x.Fn == "deref" || x.Fn == "elems" {
 			cv := env.eval(x.Args[0])
 			if cv.k != cvVal {
@@ -689,7 +701,8 @@ func (fr *Frame) callIfaceSpec(spec *FuncSpec, key string, iname string, recv Va
 		post.vars[name] = cvOf(v)
 	}
 	for _, c := range spec.Ensures {
-		fx.assume(st.guard, post.eval(c.E).asBool())
+		c := c
+		fx.assume(st.guard, fx.hyp(func() T { return post.eval(c.E).asBool() }))
 	}
 	fx.logCall(st, iname+"."+m.Name(), all, resVals)
 	return tupleOf(sig, resVals)
@@ -1038,10 +1051,57 @@ func (fr *Frame) execRange(x *ssa.Range, st *State) {
 		}
 		st.cells[c] = Val{sh: sh, ts: []T{"0", "0"}}
 	case KMap:
-		unsupp("range over map in %s", fr.fn)
+		// iterator state: the set of keys yielded so far
+		ks := xv.sh.fields[0].sorts()
+		if len(ks) != 1 {
+			unsupp("range over map with key %s", xv.sh.fields[0].key)
+		}
+		sh := &Shape{kind: KTuple, key: "mapiter", fields: []*Shape{{kind: KOpaque, key: "visitedset", rawSort: "(Array " + ks[0] + " Bool)"}}, fnames: []string{"visited"}}
+		c := fr.iters[x]
+		if c == nil {
+			c = fx.newCell("$mapiter", sh, nil)
+			fr.iters[x] = c
+		}
+		st.cells[c] = Val{sh: sh, ts: []T{fmt.Sprintf("((as const (Array %s Bool)) false)", ks[0])}}
 	default:
 		unsupp("range over %s", xv.sh.key)
 	}
+}
+
+// nextMap models one step of a map iteration (the map is not modified while
+// it is ranged over): it ends when every key has been yielded, otherwise it
+// yields some key of the map that has not been yielded before.
+func (fr *Frame) nextMap(x *ssa.Next, rng *ssa.Range, st *State) {
+	fx := fr.fx
+	m := fr.val(rng.X)
+	c := fr.iters[rng]
+	cur := st.cells[c]
+	visited := cur.ts[0]
+	tsh := shapeOf(x.Type())
+	ksh := m.sh.fields[0]
+	has, _, hasSort, _, keySort := mapHeaps(m.sh)
+	h := fx.heapTerm(st, has[0], arrSort(hasSort))
+	keys := sel(h, m.ts[0])
+	okT := fx.decls.Fresh("more", sBool)
+	k := fx.decls.Fresh("key", keySort)
+	isNil := eq(m.ts[0], "0")
+	fx.assume(st.guard, imp(isNil, not(okT)))
+	fx.assume(st.guard, imp(okT, and(sel(keys, k), not(sel(visited, k)))))
+	fx.assume(st.guard, imp(and(not(okT), not(isNil)), fmt.Sprintf("(forall ((x %s)) (! (=> (select %s x) (select %s x)) :pattern ((select %s x))))", keySort, keys, visited, keys)))
+	kv := Val{sh: ksh, ts: []T{k}}
+	fx.assume(st.guard, imp(okT, typeInvariant(kv)))
+	st.cells[c] = Val{sh: cur.sh, ts: []T{fx.define("visited", "(Array "+keySort+" Bool)", ite(okT, store(visited, k, "true"), visited))}}
+	out := Val{sh: tsh}
+	out.ts = append(out.ts, okT)
+	if len(tsh.fields) > 1 && tsh.fields[1].ncomp() > 0 {
+		out.ts = append(out.ts, k)
+	}
+	if len(tsh.fields) > 2 && tsh.fields[2].ncomp() > 0 {
+		v := fx.mapGet(st, m, kv)
+		out.ts = append(out.ts, v.ts...)
+	}
+	fr.regs[x] = out
+	fx.noteAssumption("map iteration yields every key exactly once in an arbitrary order (the map is not modified during the loop)")
 }
 
 func (fr *Frame) execNext(x *ssa.Next, st *State) {
@@ -1055,7 +1115,8 @@ func (fr *Frame) execNext(x *ssa.Next, st *State) {
 	cur := st.cells[c]
 	tsh := shapeOf(x.Type())
 	if !x.IsString {
-		unsupp("map iteration")
+		fr.nextMap(x, rng, st)
+		return
 	}
 	pos, cnt := cur.field(0).t(), cur.field(1).t()
 	okT := fx.defineBool("more", lt(pos, xv.strLen()))
@@ -1147,7 +1208,10 @@ func (fx *FnCtx) mapGet(st *State, m Val, k Val) Val {
 
 func (fx *FnCtx) mapLen(st *State, m Val) T {
 	h := fx.heapTerm(st, "ML|"+m.sh.key, arrSort(sInt))
-	return sel(h, m.ts[0])
+	n := fx.selHeap(h, m.ts[0])
+	// a nil map has length 0; lengths are never negative
+	fx.assumes = append(fx.assumes, le("0", n))
+	return ite(eq(m.ts[0], "0"), "0", n)
 }
 
 func (fr *Frame) execMakeMap(x *ssa.MakeMap, st *State) {
